@@ -121,6 +121,7 @@ impl Backend for SqliteBackend {
             })
             .await?;
             let mut conn = self.conn_pool.acquire().await?;
+            let removals = self.key_cache.removal_count();
             let done =
                 sqlx::query("INSERT OR IGNORE INTO profiles (name, profile_key) VALUES (?1, ?2)")
                     .bind(&name)
@@ -132,7 +133,8 @@ impl Backend for SqliteBackend {
                 return Err(err_msg!(Duplicate, "Duplicate profile name"));
             }
             self.key_cache
-                .add_profile(
+                .add_profile_unless_removed(
+                    removals,
                     name.clone(),
                     done.last_insert_rowid(),
                     Arc::new(profile_key),
@@ -630,6 +632,7 @@ async fn resolve_profile_key(
     profile: String,
     _in_txn: bool,
 ) -> Result<(ProfileId, Arc<ProfileKey>), Error> {
+    let removals = cache.removal_count();
     if let Some((pid, key)) = cache.get_profile(profile.as_str()).await {
         Ok((pid, key))
     } else if let Some(row) = sqlx::query("SELECT id, profile_key FROM profiles WHERE name=?1")
@@ -640,7 +643,9 @@ async fn resolve_profile_key(
     {
         let pid = row.try_get(0)?;
         let key = Arc::new(cache.load_key(row.try_get(1)?).await?);
-        cache.add_profile(profile, pid, key.clone()).await;
+        cache
+            .add_profile_unless_removed(removals, profile, pid, key.clone())
+            .await;
         Ok((pid, key))
     } else {
         Err(err_msg!(NotFound, "Profile not found"))
